@@ -176,6 +176,14 @@ impl Optimizer for LM {
 
             // calculate the gain ratio (actual reduction in error over predicted reduction)
             let rho = (res_norm_sq - new_res_norm_sq) / (0.5 * pred_reduction);
+            // a step is only good if it actually lowers the residual sum of squares: with a singular or
+            // overflowing system the predicted reduction can come out non-positive or non-finite, and the
+            // ratio of two negative numbers must not count as a gain
+            let rho = if new_res_norm_sq < res_norm_sq && pred_reduction > 0. {
+                rho
+            } else {
+                -1.
+            };
 
             if rho > 0. {
                 // good step, accept the new parameters and update all variables
